@@ -484,16 +484,23 @@ class Owner(callbacks.Plugin):
                 if hasattr(module, 'config'):
                     from importlib import reload
                     reload(module.config)
+            except ImportError:
+                for callback in callbacks:
+                    irc.addCallback(callback)
+                irc.error('No plugin named %s exists.' % name)
+            except Exception:
+                # The new code can't be imported (eg. SyntaxError): keep the
+                # old plugin instead of leaving it unloaded.
+                for callback in callbacks:
+                    irc.addCallback(callback)
+                raise
+            else:
                 for callback in callbacks:
                     callback.die()
                     del callback
                 gc.collect() # This makes sure the callback is collected.
                 callback = plugin.loadPluginClass(irc, module)
                 irc.replySuccess()
-            except ImportError:
-                for callback in callbacks:
-                    irc.addCallback(callback)
-                irc.error('No plugin named %s exists.' % name)
         else:
             irc.error('There was no plugin %s.' % name)
     reload = wrap(reload, ['something'])
